@@ -1,0 +1,28 @@
+//go:build verif
+// +build verif
+
+// Verification hook (C16, third part): a vrfWorker object that the harness keeps and calls
+// repeatedly (genProve with cast times in any order). Compiled only with -tags verif.
+package logical
+
+import (
+	"time"
+
+	"com.tuntun.rangers/node/src/consensus/model"
+	"com.tuntun.rangers/node/src/consensus/vrf"
+	"com.tuntun.rangers/node/src/middleware/types"
+)
+
+// VerifVRFWorker wraps one vrfWorker.
+type VerifVRFWorker struct{ w *vrfWorker }
+
+// VerifVRFNewWorker is newVRFWorker.
+func VerifVRFNewWorker(miner *model.SelfMinerInfo, baseBH *types.BlockHeader, castHeight uint64, expire time.Time) *VerifVRFWorker {
+	VerifVRFQuietLog()
+	return &VerifVRFWorker{w: newVRFWorker(miner, baseBH, castHeight, expire)}
+}
+
+// GenProve is vrfWorker.genProve on the wrapped worker.
+func (x *VerifVRFWorker) GenProve(castTime time.Time, totalStake uint64) (vrf.VRFProve, uint64, error) {
+	return x.w.genProve(castTime, totalStake)
+}
